@@ -85,6 +85,7 @@ def handle (ts : List String) : String :=
         let st := run toyMicro sched ⟨fun _ => -1, fun _ => -2⟩
         "ok " ++ showInts ((List.range items).map fun j => st.outs (base + j))
       else "bad-schedule"
+  | "mtbytes" :: kv => s!"ok {mtTmpBytes (kvNat kv "slot") (kvNat kv "per") (kvNat kv "pack") (kvNat kv "threads")}"
   | _ => "bad-op"
 where
   kv' (ts : List String) (k : String) : Option String := Drv.kv ts k
